@@ -13,7 +13,7 @@ package logging
 //@ pred FamInv() = forall c1 *MemCore, c2 *MemCore :: allocated(c1) && allocated(c2) && c1 != nil && c2 != nil && c1.r != nil && c2.r != nil ==> allocated(c1.r) && (RingOf(c1.r) == RingOf(c2.r) ==> c1.r == c2.r)
 //@ pred MuInv() = forall c1 *MemCore, c2 *MemCore :: allocated(c1) && allocated(c2) && c1 != nil && c2 != nil && c1.r != nil && c2.r != nil && RingOf(c1.r) == RingOf(c2.r) ==> c1.mu == c2.mu
 
-//@ func NewMemLogger returns (l)
+//@ func NewMemLogger(enc, enab) returns (l)
 //@   props C20
 //@   mode wrap
 //@   requires FamInv() && MuInv()
@@ -22,7 +22,7 @@ package logging
 //@   ensures MuInv()                                                                                      #mutex-agreement-kept
 
 // Write stores the entry in the cursor cell and advances the cursor by one cell of the same ring.
-//@ func (*MemCore).Write returns (err)
+//@ func (*MemCore).Write(mc, ent, fields) returns (err)
 //@   props C20
 //@   mode wrap
 //@   requires mc.mu != nil && mc.r != nil && FamInv() && (mc.r.Value != nil ==> mc.r.Value is *observer.LoggedEntry && mc.r.Value.(*observer.LoggedEntry) != nil)
@@ -30,7 +30,7 @@ package logging
 //@   ensures RingOf(mc.r) == RingOf(old(mc.r)) && (old(mc.r).next != nil ==> mc.r == old(mc.r).next)                         #cursor-advanced-by-one
 //@   ensures FamInv()                                                                                                         #cursor-agreement-kept
 
-//@ func (*MemCore).clone returns (c)
+//@ func (*MemCore).clone(mc) returns (c)
 //@   props C20
 //@   mode wrap
 //@   requires mc.mu != nil && mc.enc != nil && mc.r != nil && FamInv() && MuInv()
@@ -38,7 +38,7 @@ package logging
 //@   ensures FamInv()                                                            #cursor-agreement-kept
 //@   ensures MuInv()                                                             #mutex-agreement-kept
 
-//@ func (*MemCore).With returns (c)
+//@ func (*MemCore).With(mc, fields) returns (c)
 //@   props C20
 //@   mode wrap
 //@   requires mc.mu != nil && mc.enc != nil && mc.r != nil && FamInv() && MuInv()
